@@ -28,8 +28,17 @@ Proof.
   - destruct (d + 1 =? 0)%N eqn:E2; lia.
 Qed.
 
-Lemma api_saturation_witness :
-  Nat.iter 65 api_enter 0%N = 64%N /\ Nat.iter 64 api_exit (Nat.iter 65 api_enter 0%N) = 0%N.
+(* VM::enter_no_gc counts every call (like the opcode): enter / exit are inverse at every depth *)
+Lemma api_enter_exit_inverse d : api_exit (api_enter d) = d.
+Proof.
+  unfold api_exit, api_enter, api_enter_saturates. cbn [andb].
+  destruct (d + 1 =? 0)%N eqn:E; lia.
+Qed.
+
+(* OLD definition (before the repair): enter_no_gc stopped counting at MAX_NO_GC_DEPTH *)
+Definition api_enter_old (d : N) : N := if (MAX_NO_GC_DEPTH <=? d)%N then d else (d + 1)%N.
+Lemma old_api_saturation_witness :
+  Nat.iter 65 api_enter_old 0%N = 64%N /\ Nat.iter 64 api_exit (Nat.iter 65 api_enter_old 0%N) = 0%N.
 Proof. vm_compute. split; reflexivity. Qed.
 
 (* ------------------------------------------------------------------ traces *)
@@ -131,9 +140,9 @@ Proof. induction e; cbn [emit_expr0 ec]; try reflexivity. rewrite IHe1, IHe2; re
 Lemma ec_emit_expr inl P e : ec (emit_expr inl P e) = true.
 Proof.
   induction e; cbn [emit_expr ec]; try reflexivity.
-  - destruct inl; [|reflexivity]. unfold inline_of.
+  - destruct inl; [|reflexivity]. unfold inline_of, inline_of_gen.
     destruct (nth_error P f) as [fd|]; [|reflexivity].
-    destruct (f_leaf fd); [|reflexivity].
+    destruct (f_leaf fd && negb (inliner_skips_no_gc && f_nogc fd)); [|reflexivity].
     destruct (inline_body (f_body fd)) as [e'|]; cbn [option_map]; [apply ec_emit_expr0 | reflexivity].
   - rewrite IHe1, IHe2; reflexivity.
 Qed.
@@ -320,6 +329,9 @@ Qed.
 
 Lemma order_ok : return_exit_order <> RetNoExit.
 Proof. discriminate. Qed.
+(* the repaired emission order: the returned expression is evaluated before ExitNoGc *)
+Lemma order_after : return_exit_order = RetExitAfterExpr.
+Proof. reflexivity. Qed.
 
 (* a path that ends with an error never leaves the depth below the entry depth *)
 Lemma error_path_lemma ord inl P f : ord <> RetNoExit ->
@@ -330,12 +342,18 @@ Proof.
 Qed.
 
 (* ------------------------------------------------------------------ allocation points inside the region *)
+(* either the emission evaluates the returned expression inside the region, or (old order) no return
+   expression contains an allocation point or a call *)
+Definition okq (ord : ret_order) (s : stmt) : Prop := ord = RetExitAfterExpr \/ ret_quiet s = true.
+Lemma okq_and ord a b (q : bool) : (ord = RetExitAfterExpr \/ ret_quiet a && ret_quiet b = true) -> okq ord a /\ okq ord b.
+Proof. unfold okq. intros [H|H]; [auto | apply andb_true_iff in H as [A B]; auto]. Qed.
+
 Lemma stmt_alloc_pos ord inl P : ord <> RetNoExit ->
-  forall s d t m, 1 <= d -> ret_quiet s = true -> path (emit_stmt ord inl P true s) t m -> alloc_pos d t.
+  forall s d t m, 1 <= d -> okq ord s -> path (emit_stmt ord inl P true s) t m -> alloc_pos d t.
 Proof.
-  intro Hord. induction s; cbn [emit_stmt ret_quiet]; intros d t m Hd Hq Hp.
+  intro Hord. induction s; cbn [emit_stmt]; intros d t m Hd Hq Hp.
   - apply path_nil_inv in Hp as [-> _]; exact I.
-  - apply andb_true_iff in Hq as [Q1 Q2].
+  - apply (okq_and ord s1 s2 true) in Hq as [Q1 Q2].
     apply path_seq_inv in Hp as [[-> ->]|[(t1 & t2 & -> & H1 & H2)|[H1 Hn]]].
     + exact I.
     + apply alloc_pos_app. split; [eapply IHs1; eassumption|].
@@ -343,38 +361,43 @@ Proof.
       eapply IHs2; eassumption.
     + eapply IHs1; eassumption.
   - destruct (ec_path _ (ec_emit_expr inl P e) _ _ Hp) as [Zd _]. apply zero_delta_alloc_pos; [assumption | lia].
-  - apply andb_true_iff in Hq as [Q1 Q2].
+  - apply (okq_and ord s1 s2 true) in Hq as [Q1 Q2].
     apply path_if_inv in Hp as [[-> ->]|[H|H]]; [exact I | eapply IHs1; eassumption | eapply IHs2; eassumption].
-  - remember (KLoop j k (emit_stmt ord inl P true s)) as c eqn:Ec.
+  - assert (Qb : okq ord s) by exact Hq. clear Hq.
+    remember (KLoop j k (emit_stmt ord inl P true s)) as c eqn:Ec.
     revert j Ec. induction Hp; intros j0 Ec; try discriminate.
     + exact I.
     + exact I.
     + inversion Ec; subst. apply alloc_pos_app. split; [eapply IHs; eassumption|].
       pose proof (stmt_path_inv ord inl P true Hord _ _ _ Hp1) as [_ B].
-      rewrite dend_shift. destruct H as [-> | ->]; rewrite B, Z.add_0_r; eapply IHHp2; reflexivity.
+      rewrite dend_shift. destruct H as [-> | ->]; rewrite B, Z.add_0_r; eapply IHHp2; try reflexivity; assumption.
     + inversion Ec; subst. eapply IHs; eassumption.
     + inversion Ec; subst. eapply IHs; eassumption.
   - apply path_brk_inv in Hp as [-> _]; exact I.
   - apply path_cont_inv in Hp as [-> _]; exact I.
-  - (* return of a quiet expression: no allocation point after the early ExitNoGc *)
-    assert (Hx : forall t' m', path (KSeq (kflag true KExit) KRet) t' m' -> alloc_pos d t').
-    { intros t' m' H. destruct (exit_ret_path true _ _ H) as [[_ ->]|[_ [-> | [_ ->]]]]; cbn; exact I. }
+  - (* return *)
+    assert (Hx : forall d' t' m', path (KSeq (kflag true KExit) KRet) t' m' -> alloc_pos d' t').
+    { intros d' t' m' H. destruct (exit_ret_path true _ _ H) as [[_ ->]|[_ [-> | [_ ->]]]]; cbn; exact I. }
     destruct ord; [| |congruence]; cbn [ret_code] in Hp.
-    + apply path_seq_inv in Hp as [[-> ->]|[(t1 & t2 & -> & H1 & H2)|[H1 Hn]]]; [exact I | |].
+    + (* old order: ExitNoGc first; needs a quiet expression *)
+      destruct Hq as [Hq|Hq]; [discriminate|]. cbn [ret_quiet] in Hq.
+      apply path_seq_inv in Hp as [[-> ->]|[(t1 & t2 & -> & H1 & H2)|[H1 Hn]]]; [exact I | |].
       * assert (t2 = []) as ->.
         { apply path_seq_inv in H2 as [[-> _]|[(ta & tb & -> & Ha & Hb)|[Ha _]]]; [reflexivity | |].
           - rewrite (quiet_path inl P e Hq _ _ Ha). apply path_ret_inv in Hb as [-> _]. reflexivity.
           - apply (quiet_path inl P e Hq _ _ Ha). }
         rewrite app_nil_r. cbn [kflag] in H1. apply path_exit_inv in H1 as [[-> _]|[-> _]]; cbn; exact I.
       * cbn [kflag] in H1. apply path_exit_inv in H1 as [[-> _]|[-> _]]; cbn; exact I.
-    + apply path_seq_inv in Hp as [[-> ->]|[(t1 & t2 & -> & H1 & H2)|[H1 Hn]]]; [exact I | |].
-      * rewrite (quiet_path inl P e Hq _ _ H1). cbn [app]. eapply Hx; eassumption.
-      * rewrite (quiet_path inl P e Hq _ _ H1). exact I.
+    + (* repaired order: the expression runs at depth d >= 1, ExitNoGc and Return follow *)
+      apply path_seq_inv in Hp as [[-> ->]|[(t1 & t2 & -> & H1 & H2)|[H1 Hn]]]; [exact I | |].
+      * destruct (ec_path _ (ec_emit_expr inl P e) _ _ H1) as [Zd _].
+        apply alloc_pos_app. split; [apply zero_delta_alloc_pos; [assumption | lia] | eapply Hx; eassumption].
+      * destruct (ec_path _ (ec_emit_expr inl P e) _ _ H1) as [Zd _]. apply zero_delta_alloc_pos; [assumption | lia].
   - apply path_safe_inv in Hp as [[-> _]|[-> _]]; [|exact I]. cbn. split; [lia | exact I].
 Qed.
 
-Lemma region_alloc_pos_lemma ord inl P f : ord <> RetNoExit ->
-  f_nogc f = true -> ret_quiet (f_body f) = true ->
+Lemma region_alloc_pos_gen ord inl P f : ord <> RetNoExit ->
+  f_nogc f = true -> okq ord (f_body f) ->
   forall t m, path (emit_fn ord inl P f) t m -> alloc_pos 0 t.
 Proof.
   intros Hord Hg Hq t m Hp. unfold emit_fn in Hp. rewrite Hg in Hp. cbn [kflag] in Hp.
@@ -386,6 +409,24 @@ Proof.
   - apply alloc_pos_app. split; [eapply (stmt_alloc_pos ord inl P Hord); try eassumption; lia|].
     destruct (exit_ret_path true _ _ He) as [[_ ->]|[_ [-> | [_ ->]]]]; cbn; exact I.
   - eapply (stmt_alloc_pos ord inl P Hord); try eassumption; lia.
+Qed.
+
+(* the full statement for the repaired emission order: no guard on the body *)
+Lemma region_alloc_pos_lemma inl P f : f_nogc f = true ->
+  forall t m, path (emit_fn return_exit_order inl P f) t m -> alloc_pos 0 t.
+Proof. intro Hg. apply (region_alloc_pos_gen return_exit_order inl P f order_ok Hg). left. exact order_after. Qed.
+
+(* the guarded statement for the OLD order (ExitNoGc before the returned expression) *)
+Lemma old_region_alloc_pos_guarded inl P f : f_nogc f = true -> ret_quiet (f_body f) = true ->
+  forall t m, path (emit_fn RetExitFirst inl P f) t m -> alloc_pos 0 t.
+Proof. intros Hg Hq. apply (region_alloc_pos_gen RetExitFirst inl P f ltac:(discriminate) Hg). right. exact Hq. Qed.
+
+(* a @no_gc function is never inlined: every call of it runs its own EnterNoGc ... ExitNoGc *)
+Lemma nogc_never_inlined inl P f fd : nth_error P f = Some fd -> f_nogc fd = true ->
+  emit_expr inl P (ECall f) = KCall f.
+Proof.
+  intros Hn Hg. cbn [emit_expr]. destruct inl; [|reflexivity].
+  unfold inline_of, inline_of_gen, inliner_skips_no_gc. rewrite Hn, Hg. cbn [andb negb]. rewrite andb_false_r. reflexivity.
 Qed.
 
 (* ------------------------------------------------------------------ executable semantics: depth through calls *)
@@ -523,9 +564,9 @@ Section Exec.
     - cbn. reflexivity.
     - cbn. lia.
     - destruct (if inl' then inline_of P f0 else None) as [c|] eqn:Ei.
-      + destruct inl'; [|discriminate]. unfold inline_of in Ei.
+      + destruct inl'; [|discriminate]. unfold inline_of, inline_of_gen in Ei.
         destruct (nth_error P f0) as [fd|]; [|discriminate].
-        destruct (f_leaf fd); [|discriminate].
+        destruct (f_leaf fd && negb (inliner_skips_no_gc && f_nogc fd)); [|discriminate].
         destruct (inline_body (f_body fd)) as [e'|] eqn:Eb; [|discriminate].
         cbn [option_map] in Ei. inversion Ei; subst.
         apply emit_expr0_nocalls. eapply inline_body_nocalls; eassumption.
@@ -635,18 +676,40 @@ Section Exec.
   Qed.
 End Exec.
 
-Lemma run_vm_restores ord inl P n0 d0 : ord <> RetNoExit ->
-  let r := run_vm ord inl P n0 d0 in
-  (fst r = ONormal -> v_depth (snd r) = d0) /\ (fst r = OErr -> d0 <= v_depth (snd r)) /\ fst r <> OUnder.
+Lemma run_vm_raw_restores ord inl P n0 d0 : ord <> RetNoExit ->
+  let r := run_vm_raw ord inl P n0 d0 in
+  (fst r = ONormal \/ fst r = OBrk \/ fst r = OCont \/ fst r = ORet -> v_depth (snd r) = d0) /\
+  (fst r = OErr -> d0 <= v_depth (snd r)) /\ fst r <> OUnder.
 Proof.
-  intro Hord. unfold run_vm.
-  exact (run_restores ord inl (p_fns P) Hord (p_main P) n0 FUEL (ndefs_state d0 (p_ndefs P))).
+  intro Hord. unfold run_vm_raw. cbv zeta.
+  pose proof (proj2 (inv_all ord inl (p_fns P) Hord FUEL) false (p_main P) n0 0%Z (ndefs_state d0 (p_ndefs P)) ltac:(cbn; lia)) as H.
+  unfold stmt_post in H.
+  destruct (vm_exec FUEL (emit_tbl ord inl (p_fns P)) (emit_stmt ord inl (p_fns P) false (p_main P)) n0 0%Z (ndefs_state d0 (p_ndefs P))) as [o st'].
+  cbn [fst snd bn ndefs_state v_depth] in *.
+  destruct o; try contradiction; repeat split; intros; try discriminate; try lia;
+    try (destruct H0 as [?|[?|[?|?]]]; discriminate); try congruence.
 Qed.
 
+(* with the restore step of run_fast: every run that does not run out of model fuel -- Ok or Err --
+   leaves no_gc_depth exactly as it found it *)
+Lemma run_vm_restores ord inl P n0 d0 : ord <> RetNoExit -> error_restores_depth = true ->
+  let r := run_vm ord inl P n0 d0 in
+  (fst r <> OFuel -> v_depth (snd r) = d0) /\ fst r <> OUnder.
+Proof.
+  intros Hord Hres. unfold run_vm. rewrite Hres. cbv zeta.
+  pose proof (run_vm_raw_restores ord inl P n0 d0 Hord) as H. cbv zeta in H.
+  destruct (run_vm_raw ord inl P n0 d0) as [o st]. cbn [fst snd] in H. destruct H as (A & B & C).
+  destruct o; cbn [restore_on_err fst snd set_depth v_depth]; split; intros; try discriminate; try congruence;
+    try (apply A; tauto).
+Qed.
+
+Lemma restores_flag : error_restores_depth = true.
+Proof. reflexivity. Qed.
+
 Lemma session_with_ok run :
-  (forall P n0 d, fst (run P n0 d) = ONormal -> v_depth (snd (run P n0 d)) = d) ->
+  (forall P n0 d, fst (run P n0 d) <> OFuel -> v_depth (snd (run P n0 d)) = d) ->
   forall inputs d,
-  Forall (fun r => fst r = ONormal) (session_with run inputs d) ->
+  Forall (fun r => fst r <> OFuel) (session_with run inputs d) ->
   Forall (fun r => snd r = d) (session_with run inputs d).
 Proof.
   intro Hrun. induction inputs as [|[P n0] r IH]; intros d H; cbn [session_with] in *; [constructor|].
@@ -655,12 +718,12 @@ Proof.
   constructor; [reflexivity | apply IH; assumption].
 Qed.
 
-Lemma session_ok_restores ord inl : ord <> RetNoExit -> forall inputs d,
-  Forall (fun r => fst r = ONormal) (session ord inl inputs d) ->
+Lemma session_restores ord inl : ord <> RetNoExit -> error_restores_depth = true -> forall inputs d,
+  Forall (fun r => fst r <> OFuel) (session ord inl inputs d) ->
   Forall (fun r => snd r = d) (session ord inl inputs d).
 Proof.
-  intro Hord. unfold session. apply session_with_ok.
-  intros P n0 d. exact (proj1 (run_vm_restores ord inl P n0 d Hord)).
+  intros Hord Hres. unfold session. apply session_with_ok.
+  intros P n0 d. exact (proj1 (run_vm_restores ord inl P n0 d Hord Hres)).
 Qed.
 
 (* no @no_gc function anywhere: nothing ever changes the depth, whatever the outcome *)
@@ -696,8 +759,9 @@ Proof. induction e; cbn; try reflexivity. rewrite IHe1, IHe2; reflexivity. Qed.
 Lemma noee_expr inl P e : noee (emit_expr inl P e) = true.
 Proof.
   induction e; cbn [emit_expr noee]; try reflexivity.
-  - destruct inl; [|reflexivity]. unfold inline_of. destruct (nth_error P f); [|reflexivity].
-    destruct (f_leaf f0); [|reflexivity]. destruct (inline_body (f_body f0)); cbn; [apply noee_expr0 | reflexivity].
+  - destruct inl; [|reflexivity]. unfold inline_of, inline_of_gen. destruct (nth_error P f); [|reflexivity].
+    destruct (f_leaf f0 && negb (inliner_skips_no_gc && f_nogc f0)); [|reflexivity].
+    destruct (inline_body (f_body f0)); cbn; [apply noee_expr0 | reflexivity].
   - rewrite IHe1, IHe2; reflexivity.
 Qed.
 Lemma noee_stmt ord inl P s : noee (emit_stmt ord inl P false s) = true.
@@ -710,12 +774,17 @@ Qed.
 Lemma no_nogc_depth_constant ord inl P n0 d0 :
   Forall (fun f => f_nogc f = false) (p_fns P) -> v_depth (snd (run_vm ord inl P n0 d0)) = d0.
 Proof.
-  intro H. unfold run_vm. rewrite noee_exec; [reflexivity | | apply noee_stmt].
+  intro H. assert (R : v_depth (snd (run_vm_raw ord inl P n0 d0)) = d0).
+  2:{ unfold run_vm. destruct (run_vm_raw ord inl P n0 d0) as [o st]. cbn [snd] in R.
+      destruct o; cbn [restore_on_err snd]; try exact R; destruct error_restores_depth; cbn [snd set_depth v_depth]; auto. }
+  unfold run_vm_raw. rewrite noee_exec; [reflexivity | | apply noee_stmt].
   unfold emit_tbl. apply Forall_map. eapply Forall_impl; [|exact H].
   intros f Hf. unfold emit_fn. rewrite Hf. cbn [kflag noee]. rewrite noee_stmt. reflexivity.
 Qed.
 
-(* ------------------------------------------------------------------ witnesses of the refuted statements *)
+(* ------------------------------------------------------------------ witnesses about the OLD definitions
+   (the three defects were repaired in /repo; these lemmas document what the old code did and are stated
+   about explicitly old parameters: RetExitFirst, run_vm_raw (no restore step), inline_of_gen false) *)
 Local Open Scope Z_scope.
 (* `@no_gc fn f(a, b) { return a + b }` *)
 Definition w_leaf_ret : fn := mkFn true true (sq [SReturn ESafe]).
@@ -723,17 +792,16 @@ Definition w_leaf_ret : fn := mkFn true true (sq [SReturn ESafe]).
 Definition w_leaf_imp : fn := mkFn true true (sq [SExpr ESafe]).
 (* `@no_gc fn h(n, z) { acc = acc + sx; zq = 10 / z; return n }` *)
 Definition w_fail_in_region : fn := mkFn true false (sq [SExpr ESafe; SExpr EFail; SReturn EAtom]).
-(* `@no_gc fn h2(n, z) { acc = acc + sx; return 10 / z }` : the failing operation inside the return expression *)
+(* `@no_gc fn h2(n, z) { acc = acc + sx; return 10 / z }` *)
 Definition w_fail_in_return : fn := mkFn true false (sq [SExpr ESafe; SReturn EFail]).
 Definition prog_call (f : fn) : prog := mkProg [f] (sq [SExpr (ECall 0)]) 1.
 Definition prog_safe : prog := mkProg [] (sq [SExpr ESafe]) 0.
 
-Lemma return_expr_path_witness :
-  return_exit_order = RetExitFirst ->
-  path (emit_fn return_exit_order false [] w_leaf_ret) [VEnter; VExit; VSafe] CReturned /\
+Lemma old_return_expr_path_witness :
+  path (emit_fn RetExitFirst false [] w_leaf_ret) [VEnter; VExit; VSafe] CReturned /\
   ~ alloc_pos 0 [VEnter; VExit; VSafe].
 Proof.
-  intro E. rewrite E. split.
+  split.
   - unfold emit_fn, w_leaf_ret. cbn.
     apply (P_seq_n KEnter _ [VEnter] [VExit; VSafe]); [constructor|].
     apply P_seq_x; [|discriminate].
@@ -743,26 +811,19 @@ Proof.
   - cbn. intros [H _]. lia.
 Qed.
 
-Lemma return_expr_exec_witness :
-  let '(o, st) := run_vm return_exit_order false (prog_call w_leaf_ret) 1 0 in
-  let '(_, ss) := run_src (prog_call w_leaf_ret) 1 in
-  o = ONormal /\ s_flag ss = 1%N /\ v_pos st = 0%N /\ v_depth st = 0%N.
-Proof. vm_compute. repeat split; reflexivity. Qed.
-
-Lemma error_leak_witness :
-  session return_exit_order false [(prog_call w_fail_in_region, 1); (prog_safe, 1); (prog_safe, 1)] 0
+Lemma old_error_leak_witness :
+  session_with (run_vm_raw RetExitFirst false) [(prog_call w_fail_in_region, 1); (prog_safe, 1); (prog_safe, 1)] 0
   = [(OErr, 1%N); (ONormal, 1%N); (ONormal, 1%N)]
-  /\ (let '(_, st) := run_vm return_exit_order false prog_safe 1 1 in v_safes st = 1%N /\ v_pos st = 1%N).
-Proof. vm_compute. split; [reflexivity | split; reflexivity]. Qed.
+  /\ session_with (run_vm_raw RetExitFirst false) [(prog_call w_fail_in_return, 1); (prog_safe, 1)] 0 = [(OErr, 0%N); (ONormal, 0%N)].
+Proof. vm_compute. split; reflexivity. Qed.
 
-(* the two defects mask each other when the failing operation sits inside the return expression *)
-Lemma error_in_return_expr_masked :
-  session return_exit_order false [(prog_call w_fail_in_return, 1); (prog_safe, 1)] 0 = [(OErr, 0%N); (ONormal, 0%N)].
-Proof. vm_compute. reflexivity. Qed.
+Lemma old_inliner_witness : inline_of_gen false [w_leaf_imp] 0 = Some KSafe.
+Proof. reflexivity. Qed.
 
-Lemma inline_witness :
-  let '(_, a) := run_vm return_exit_order false (prog_call w_leaf_imp) 1 0 in
-  let '(_, b) := run_vm return_exit_order true (prog_call w_leaf_imp) 1 0 in
-  let '(_, ss) := run_src (prog_call w_leaf_imp) 1 in
-  s_flag ss = 1%N /\ v_pos a = 1%N /\ v_pos b = 0%N /\ v_safes a = v_safes b.
+(* the same inputs on the repaired definitions *)
+Lemma repaired_witnesses :
+  session return_exit_order false [(prog_call w_fail_in_region, 1); (prog_safe, 1); (prog_call w_fail_in_return, 1); (prog_safe, 1)] 0
+  = [(OErr, 0%N); (ONormal, 0%N); (OErr, 0%N); (ONormal, 0%N)] /\
+  (let '(_, st) := run_vm return_exit_order true (prog_call w_leaf_ret) 1 0 in v_pos st = 1%N /\ v_safes st = 2%N) /\
+  (let '(_, st) := run_vm return_exit_order true (prog_call w_leaf_imp) 1 0 in v_pos st = 1%N /\ v_safes st = 2%N).
 Proof. vm_compute. repeat split; reflexivity. Qed.
